@@ -546,11 +546,14 @@ def refresh (s : State) : List Id × State :=
   let r := (poolSorted s).foldl (refreshStep s) ([], [])
   (r.1, { s with pool := r.2 })
 
+def hardBad (s : State) (e : PoolEntry) : Bool :=
+  match verifySingleHard s e.txn with
+  | .ok () => false
+  | .error _ => true
+
 /-- RemoveInvalid: drops entries violating hard constraints; returns their hashes -/
 def removeInvalid (s : State) : List Id × State :=
-  let bad := (poolSorted s).filter fun e => match verifySingleHard s e.txn with
-    | .ok () => false | .error _ => true
-  let hs := bad.map (·.txn.hash)
+  let hs := ((poolSorted s).filter (hardBad s)).map (·.txn.hash)
   (hs, { s with pool := s.pool.filter fun e => !hs.contains e.txn.hash })
 
 /-- visor.New + Visor.Init on an existing database: CreateBuckets, MaybeBuildIndexes and
